@@ -11,7 +11,7 @@
 -/
 import Rtp.Model.Packetizer
 namespace Rtp.Pred.C06
-open Rtp Rtp.Model
+open Rtp Rtp.Model Rtp.Model.Packetizer
 
 def pktsOf : PkOpObs → List PktObs
   | .packetize _ l => l
